@@ -57,6 +57,12 @@ def lint(project, source, filename=None, debug=False):
                 # declaration: defined once that function has run
                 use_name(scope._global_names[name.id])
                 continue
+            bound = scope.closure_names(flow.scope, location).get(name.id)
+            if bound:
+                # a variable a nested function has bound through a nonlocal
+                # declaration
+                use_name(bound)
+                continue
             result.append(('E02', 'Undefined name: {}'.format(name.id),
                            location[0], location[1], flow))
         else:
